@@ -84,6 +84,7 @@ func boolv(b bool) *aval { return constv(constant.MakeBool(b), types.Typ[types.B
 
 // An outcome is one way the function can return under the scenario.
 type outcome struct {
+	decided map[string]bool
 	results []*aval
 	ret     *ssa.Return
 	path    []*ssa.BasicBlock
@@ -112,6 +113,12 @@ type interp struct {
 	forkHook func(st *istate, cond *aval, ifi *ssa.If) string
 	// hook: observe a map update (map, key, value)
 	mapUpdateHook func(st *istate, mu *ssa.MapUpdate, m, k, v *aval)
+	// inline: calls of these in-package functions are evaluated in place (the
+	// callee's paths fork the caller's path) instead of staying opaque terms, so
+	// that a rule sees the same thing whether a piece of code is written inline
+	// or extracted into a helper
+	inline func(callee *ssa.Function) bool
+	pfx    string // prefix of locally named symbols (callee name when inlined)
 }
 
 type istate struct {
@@ -192,7 +199,77 @@ func (in *interp) get(st *istate, v ssa.Value) *aval {
 	case *ssa.FreeVar:
 		return symv(x.Name(), x.Type())
 	}
-	return symv(v.Name(), v.Type())
+	return symv(in.pfx+v.Name(), v.Type())
+}
+
+// inlineCall evaluates a call of an in-package function in place. It returns
+// one caller state per way the callee can return (with the call's value bound)
+// and handled=false when the call is not to be inlined.
+func (in *interp) inlineCall(st *istate, c *ssa.Call) ([]*istate, bool) {
+	sc := c.Common().StaticCallee()
+	if sc == nil || sc.Blocks == nil || !in.p.inTarget(sc) || in.depth >= 3 || sc == in.f || !in.inline(sc) {
+		return nil, false
+	}
+	var args []*aval
+	for _, a := range c.Common().Args {
+		args = append(args, in.get(st, a))
+	}
+	if in.callHook != nil {
+		if r := in.callHook(st, c, args); r != nil {
+			st.env[c] = r
+			return []*istate{st}, true
+		}
+	}
+	sub := &interp{p: in.p, f: sc, depth: in.depth + 1, maxPaths: in.maxPaths, maxVisit: in.maxVisit, structuralNames: in.structuralNames,
+		callHook: in.callHook, binopHook: in.binopHook, nextHook: in.nextHook, forkHook: in.forkHook, mapUpdateHook: in.mapUpdateHook,
+		inline: in.inline, pfx: in.pfx + sc.Name() + "."}
+	s0 := &istate{env: map[ssa.Value]*aval{}, mem: map[ssa.Value]*aval{}, count: map[*ssa.BasicBlock]int{}, rbase: map[*ssa.BasicBlock]int{},
+		decided: map[string]bool{}, escaped: map[ssa.Value]bool{}}
+	for k, v := range st.decided {
+		s0.decided[k] = v
+	}
+	s0.notes = append([]string{}, st.notes...)
+	s0.calls = append([]string{}, st.calls...)
+	for i, prm := range sc.Params {
+		if i < len(args) {
+			s0.env[prm] = args[i]
+			// a pointer to a caller's variable: what it holds now
+			if m, ok := st.mem[c.Common().Args[i]]; ok {
+				s0.mem[prm] = m
+			}
+		}
+	}
+	sub.block(s0, sc.Blocks[0], nil)
+	var out []*istate
+	for _, o := range sub.out {
+		if o.loop {
+			in.out = append(in.out, outcome{loop: true, path: st.path, calls: o.calls})
+			continue
+		}
+		if o.panics || o.ret == nil {
+			in.out = append(in.out, outcome{panics: true, path: st.path, calls: o.calls, notes: o.notes})
+			continue
+		}
+		ns := st.clone()
+		ns.notes = append([]string{}, o.notes...)
+		ns.calls = append([]string{}, o.calls...)
+		for k, v := range o.decided {
+			ns.decided[k] = v
+		}
+		switch len(o.results) {
+		case 0:
+		case 1:
+			ns.env[c] = o.results[0]
+		default:
+			flds := map[string]*aval{}
+			for i, rv := range o.results {
+				flds[fmt.Sprint(i)] = rv
+			}
+			ns.env[c] = &aval{k: aStruct, fields: flds}
+		}
+		out = append(out, ns)
+	}
+	return out, true
 }
 
 func (in *interp) block(st *istate, b *ssa.BasicBlock, pred *ssa.BasicBlock) {
@@ -229,7 +306,14 @@ func (in *interp) block(st *istate, b *ssa.BasicBlock, pred *ssa.BasicBlock) {
 	for k, v := range newPhi {
 		st.env[k] = v
 	}
-	for _, ins := range b.Instrs {
+	in.runFrom(st, b, 0)
+}
+
+// runFrom executes the instructions of b starting at index start (phis are
+// skipped: they were evaluated on entry).
+func (in *interp) runFrom(st *istate, b *ssa.BasicBlock, start int) {
+	for idx := start; idx < len(b.Instrs); idx++ {
+		ins := b.Instrs[idx]
 		switch x := ins.(type) {
 		case *ssa.Phi:
 			continue
@@ -287,7 +371,7 @@ func (in *interp) block(st *istate, b *ssa.BasicBlock, pred *ssa.BasicBlock) {
 			in.block(st, b.Succs[0], b)
 			return
 		case *ssa.Return:
-			o := outcome{ret: x, path: st.path, calls: st.calls, notes: st.notes}
+			o := outcome{ret: x, path: st.path, calls: st.calls, notes: st.notes, decided: st.decided}
 			for _, r := range x.Results {
 				o.results = append(o.results, in.get(st, r))
 			}
@@ -297,6 +381,18 @@ func (in *interp) block(st *istate, b *ssa.BasicBlock, pred *ssa.BasicBlock) {
 			in.out = append(in.out, outcome{panics: true, path: st.path, calls: st.calls})
 			return
 		default:
+			if c, isCall := ins.(*ssa.Call); isCall && in.inline != nil {
+				if states, handled := in.inlineCall(st, c); handled {
+					if len(states) == 0 {
+						return // every path through the callee ended (panic / loop bound)
+					}
+					for _, s2 := range states[1:] {
+						in.runFrom(s2, b, idx+1)
+					}
+					st = states[0]
+					continue
+				}
+			}
 			in.instr(st, ins)
 			if st.dead {
 				in.out = append(in.out, outcome{panics: true, path: st.path, calls: st.calls, notes: st.notes})
@@ -341,7 +437,7 @@ func (in *interp) instr(st *istate, ins ssa.Instruction) {
 		if x.Comment != "" && x.Comment != "complit" && x.Comment != "varargs" && x.Comment != "slicelit" {
 			name = x.Comment
 		}
-		a := symv("&"+name, x.Type())
+		a := symv("&"+in.pfx+name, x.Type())
 		a.nonnil = true
 		st.env[x] = a
 		delete(st.mem, x) // a local is zeroed each time its declaration executes
@@ -547,7 +643,7 @@ func (in *interp) instr(st *istate, ins ssa.Instruction) {
 				}
 			}
 			// the k-th element visited by this range on this path gets its own name
-			rname := nx.Name()
+			rname := in.pfx + nx.Name()
 			if in.structuralNames {
 				if rg, ok := nx.Iter.(*ssa.Range); ok {
 					rname = "elem(" + in.get(st, rg.X).String() + ")"
@@ -599,7 +695,7 @@ func (in *interp) instr(st *istate, ins ssa.Instruction) {
 		}
 	case *ssa.MakeMap:
 		// every executed make is a distinct, non-nil map
-		a := symv("makemap:"+x.Name(), x.Type())
+		a := symv("makemap:"+in.pfx+x.Name(), x.Type())
 		a.nonnil = true
 		st.env[x] = a
 	case *ssa.IndexAddr, *ssa.Index, *ssa.Lookup, *ssa.MakeSlice, *ssa.MakeClosure, *ssa.Next, *ssa.DebugRef, *ssa.RunDefers, *ssa.Defer:
@@ -695,6 +791,21 @@ func (in *interp) call(st *istate, c *ssa.Call) {
 			case "strings.HasSuffix":
 				st.env[c] = boolv(strings.HasSuffix(s0, s1))
 				return
+			case "strings.Contains":
+				st.env[c] = boolv(strings.Contains(s0, s1))
+				return
+			case "strings.TrimPrefix":
+				st.env[c] = constv(constant.MakeString(strings.TrimPrefix(s0, s1)), c.Type())
+				return
+			case "strings.TrimSuffix":
+				st.env[c] = constv(constant.MakeString(strings.TrimSuffix(s0, s1)), c.Type())
+				return
+			case "strings.TrimLeft":
+				st.env[c] = constv(constant.MakeString(strings.TrimLeft(s0, s1)), c.Type())
+				return
+			case "strings.TrimRight":
+				st.env[c] = constv(constant.MakeString(strings.TrimRight(s0, s1)), c.Type())
+				return
 			}
 		}
 	} else if cc.IsInvoke() {
@@ -773,4 +884,15 @@ func summarize(outs []outcome, idx int) []string {
 	}
 	sort.Strings(out)
 	return out
+}
+
+// smallHelper: an unexported function of the package, small enough to be
+// evaluated in place.
+func smallHelper(f *ssa.Function) bool {
+	n := f.Name()
+	if n == "" || f.Blocks == nil || len(f.Blocks) > 20 {
+		return false
+	}
+	c := n[0]
+	return c >= 'a' && c <= 'z'
 }
